@@ -56,7 +56,7 @@ def impl_controller(case):
         pass
     try:
         root.handlers = [UserHandler(h) for h in case["handlers"]]
-        root.setLevel(30)
+        root.setLevel(case.get("root_level", 30))
         sys.stdout, sys.stderr = real_out, real_err
         ctl = CaptureController(config)
         ctx = Ctx()
@@ -175,6 +175,13 @@ def oracle_controller(case, obs):
             out.append(("after teardown the root logger has user handlers %s, expected %s" % (obs["users"], users), "log-handlers-not-restored"))
         elif obs["users"] != users and not installed:
             out.append(("after teardown the root logger's handlers are reordered: %s, expected %s" % (obs["users"], users), "log-handlers-not-restored"))
+    if case["cfg"]["log"] and bracketed:
+        inst = False
+        for op in case["ops"]:
+            inst = True if op[0] == "setup" else (False if op[0] == "teardown" else inst)
+        if not inst and obs["level"] != case.get("root_level", 30):
+            out.append(("after teardown the root logger's level is %r, it was %r before the capture was set up" % (obs["level"], case.get("root_level", 30)),
+                        "log-level-not-restored"))
     return out
 
 
@@ -199,8 +206,8 @@ def enc_controller(case, obs):
     if obs["crashed"]:
         return None
     c = case["cfg"]
-    i = "(mkCapCfg %s %s %s %s 20%%nat, %s, 30%%nat, %s)" % (cbool(c["out"]), cbool(c["err"]), cbool(c["log"]), cbool(c["clear"]),
-                                                        nl(case["handlers"]), clist([c_capop(o) for o in case["ops"]], "capop"))
+    i = "(mkCapCfg %s %s %s %s 20%%nat, %s, %d%%nat, %s)" % (cbool(c["out"]), cbool(c["err"]), cbool(c["log"]), cbool(c["clear"]),
+                                                        nl(case["handlers"]), case.get("root_level", 30), clist([c_capop(o) for o in case["ops"]], "capop"))
     reports = clist([clist([nl(p) for p in r], "list nat") for r in obs["reports"]], "list (list nat)")
     seen = clist(["(%s, %s)" % (cnat(h), cnat(m)) for h, m in obs["seen"]], "nat * nat")
     o = "(%s, %s, %s, %s, %s, %s, (%s, %s), false)" % (reports, nl(obs["real_out"]), nl(obs["real_err"]), seen, nl(obs["users"]),
@@ -337,7 +344,7 @@ def impl_run(case):
     hooks["after_step"] = after_step
     try:
         root.handlers = []
-        root.setLevel(30)
+        root.setLevel(case.get("root_level", 30))
         sys.stdout, sys.stderr = real_out, real_err
         config = Configuration(args, load_config=False)
         config.reporters = []
@@ -450,7 +457,9 @@ def suites(tier, seed):
     for _ in range(12000 if thorough else 2000):
         ctl.append({"cfg": {"out": rnd.random() < 0.7, "err": rnd.random() < 0.7, "log": rnd.random() < 0.7, "clear": rnd.random() < 0.6},
                     # at least one handler: otherwise Python's logging.lastResort prints records to sys.stderr
-                    "handlers": rnd.choice([[1], [1], [1, 2], [1, 2, 3]]), "ops": gen_ops(rnd, rnd.randint(3, 22))})
+                    "handlers": rnd.choice([[1], [1], [1, 2], [1, 2, 3]]), "ops": gen_ops(rnd, rnd.randint(3, 22)),
+                    # level of the root logger before the capture: NOTSET (0), DEBUG, WARNING, ERROR
+                    "root_level": rnd.choice([30, 30, 0, 10, 40])})
     runs = []
     kinds = ["pass", "fail", "error", "kbd", "hookfail"]
     seqs = [list(t) for n in (1, 2, 3) for t in itertools.product(kinds, repeat=n)]
@@ -459,7 +468,7 @@ def suites(tier, seed):
             scen = [rnd.choice(seqs) for _ in range(rnd.randint(1, 3))]
             runs.append({"switches": {"out": sw[0], "err": sw[1], "log": sw[2]}, "clear": rnd.random() < 0.6,
                          "handlers": rnd.choice([[1], [1, 2], [1, 2, 3]]), "scenarios": scen,
-                         "junit": rnd.random() < 0.5,
+                         "junit": rnd.random() < 0.5, "root_level": rnd.choice([30, 30, 0, 10, 40]),
                          "bad_before": [i for i in range(len(scen)) if rnd.random() < 0.25]})
     return [
         {"name": "controller", "cases": ctl, "impl": impl_controller, "oracle": oracle_controller,
